@@ -267,6 +267,8 @@ class Recorder:
                     self.sub.check(case, ctx)
             except (Violation, Discard, StopRun, HarnessError, KeyboardInterrupt):
                 raise
+            except CaseTimeout:
+                raise Discard("time limit of a library call hit (inconclusive, never a violation)")
             except Exception as e:  # noqa: BLE001
                 where = innermost_repo_frame(e)
                 if where is None:
